@@ -33,6 +33,7 @@ LEVEL_TEXT = (
     "conserved total, models with a readout (also for failing rows), tables with the initial-value column "
     "first, integer-typed tables, 17 / 40 rows on 1, 3, 16 workers. "
     ' Also: models that were evaluated and simulated before the scan, and tables with a column for the parameter the model defines by an initial assignment (alone and next to an initial-value column).'
+    " Also: the containers' combined variables / fluxes tables must hold each row's own result in the table's order; scan tables with repeated rows."
 )
 LEVEL_NOTE = "the OS schedule of the worker processes is not owned: completion orders are forced by delays (realised orders are measured and reported), worker counts are real; the per-row reference uses the same Simulator (C04/C15 check the Simulator itself)"
 RULE = (
